@@ -1,7 +1,6 @@
 package main
 
 import (
-	"verif/shim/vclock"
 	"context"
 	"crypto"
 	"crypto/hmac"
@@ -15,6 +14,7 @@ import (
 	"hash"
 	"strings"
 	"time"
+	"verif/shim/vclock"
 
 	"github.com/bolkedebruin/rdpgw/cmd/rdpgw/identity"
 	"github.com/bolkedebruin/rdpgw/cmd/rdpgw/protocol"
